@@ -193,7 +193,7 @@ func checkC06(c *Check) {
 			for _, pt := range r.Calls(stagePred) {
 				call := r.CallAt(pt, stagePred)
 				n++
-				key := fi.Obj.Name() + ":" + methodName(call) + itoa(n)
+				key := refName(fi.Obj) + ":" + methodName(call) + itoa(n)
 				c.SawFunc(fi.Name())
 				eo := errVarAssigned(info, pt.Node(), call)
 				if eo == nil {
